@@ -56,8 +56,8 @@ CLAIMED = {
     technique="Lean 4 proof (state-machine invariants, certificate-checker soundness) + exact model/implementation graph correspondence",
     design="7/C08"),
   "C09": dict(
-    text="networkx.dag_longest_path is validated per run by a checker whose soundness is proved in Lean: pathWeight_le_potential / C09_potential_bounds_all_paths (a non-negative potential with d(src)+w <= d(dst) on every edge bounds the weight of EVERY path), C09_reported_path_is_maximum (a reported path meeting the bound is a maximum-weight path), C09_path_le_makespan (with weights at most the time difference of their endpoints a path weighs at most the time from its first to its last node), C09_path_edges (one graph edge per consecutive pair of path nodes), checkPotential_sound. Per run the Lean longest-path DP over networkx's topological order produces the certificate, Lean checks it and compares the reported path's weight with the optimum, for the original graph and for re-weighted copies (the what-if workflow, judged against the weights that were assigned, so a recomputation that silently restores weights shows); the reported edge and event sets are compared with the path; an independent memoised DFS in Python cross-checks.",
-    note=TB + "Translation-validation style use of a proved checker: the optimisation algorithm itself (networkx) is not modelled. The makespan clause is checked on unmodified graphs only.",
+    text="The longest-path dynamic programme over a topological order is proved exact for every DAG: C09_dp_is_potential (for every edge list and every duplicate-free order in which each edge's source precedes its target, the computed distances are a non-negative potential bounded by best), C09_dp_bounds_all_paths (no path of the graph outweighs best), C09_dp_optimum_attained (some path weighs exactly best; at most one edge per ordered pair). So best(dp) IS the maximum path weight, and comparing the reported path's weight with it decides optimality exactly. networkx.dag_longest_path itself is validated per run against that optimum, by a checker whose soundness is proved in Lean: pathWeight_le_potential / C09_potential_bounds_all_paths (a non-negative potential with d(src)+w <= d(dst) on every edge bounds the weight of EVERY path), C09_reported_path_is_maximum (a reported path meeting the bound is a maximum-weight path), C09_path_le_makespan (with weights at most the time difference of their endpoints a path weighs at most the time from its first to its last node), C09_path_edges (one graph edge per consecutive pair of path nodes), checkPotential_sound. Per run the Lean longest-path DP over networkx's topological order produces the certificate, Lean checks it and compares the reported path's weight with the optimum, for the original graph and for re-weighted copies (the what-if workflow, judged against the weights that were assigned, so a recomputation that silently restores weights shows); the reported edge and event sets are compared with the path; an independent memoised DFS in Python cross-checks.",
+    note=TB + "The optimum is a theorem about the Lean programme; networkx's own algorithm is not modelled, its answer (path and topological order) is compared with the proved optimum on every run (translation validation). The makespan clause is checked on unmodified graphs only.",
     technique="Lean 4 proof of a certificate checker (potential function / telescoping) + per-run validation of networkx's answer",
     design="7/C09"),
   "C10": dict(
